@@ -498,7 +498,7 @@ func directed() []input {
 func gen(r *hx.Rand, tier string) []json.RawMessage {
 	n, nbig := 400, 26
 	if tier == "thorough" {
-		n, nbig = 5000, 400
+		n, nbig = 4000, 300
 	}
 	var out []json.RawMessage
 	for _, in := range directed() {
